@@ -142,6 +142,9 @@ func Assert(cond bool, id string) {
 // Reach is a vacuity witness: the engine requires a feasible path through it.
 func Reach(id string) {}
 
+// Thorough reports whether the thorough tier is running.
+func Thorough() bool { return os.Getenv("VERIF_TIER") == "thorough" }
+
 // Engine directives (no-ops natively).
 func ExploreSchedules(preemptions int) {}
 func CheckLeaks(on bool)               {}
